@@ -74,8 +74,11 @@ Proof.
   assert (R1 : (starred nm = true \/ len1 <> None) ->
                forall s k' e, snd (rec s (cname_of nm) None) = CErr k' e -> k' <> eFuel)
     by (intros Hc s k' e E; eapply HR; eauto).
-  destruct len1 as [l|], (starred nm) eqn:ES; cbn [snd]; try discriminate;
-    [ specialize (R1 (or_introl eq_refl)) | specialize (R1 (or_intror ltac:(discriminate))) | specialize (R1 (or_introl eq_refl)) ].
+  destruct len1 as [l|]; destruct (starred nm) eqn:ES.
+  4:{ cbn [snd]. intros H. discriminate H. }
+  1: specialize (R1 (or_introl eq_refl)).
+  2: (assert (Hq : Some l <> None) by discriminate; specialize (R1 (or_intror Hq))).
+  3: specialize (R1 (or_introl eq_refl)).
   - destruct (Z.eqb l 0); [discriminate|]. pose proof (R1 st) as R. destruct (rec st (cname_of nm) None) as [s1 r]. cbn [snd] in R.
     destruct r as [o b|k' e].
     + destruct (obj_len (heap s1) o) eqn:EL; cbn [snd].
@@ -89,7 +92,7 @@ Proof.
       destruct r2 as [o2 b2|k2 e2]; cbn [snd]; [discriminate|].
       destruct (is_singleton_err k2); cbn [snd].
       * destruct (Z.eqb a l); [discriminate|]. intros H. injection H as <-. apply not_fuel_sing.
-      * intros H. injection H as <-. eapply R2; eauto. right. split; [reflexivity | split; discriminate].
+      * intros H. injection H as <-. apply (R2 k2 e2 eq_refl). right. split; [reflexivity | split; discriminate].
     + destruct (is_singleton_err k'); cbn [snd]; [discriminate|]. intros H. injection H as <-. eapply R; eauto.
   - pose proof (R1 st) as R. destruct (rec st (cname_of nm) None) as [s1 r]. cbn [snd] in R. destruct r as [o b|k' e].
     + destruct (obj_len (heap s1) o) eqn:EL; cbn [snd]; [discriminate|]. intros H. injection H as <-. eapply obj_len_not_fuel; eauto.
